@@ -198,8 +198,15 @@ def run(F, R, tier):
          "created by %s(%s); header_in = %s" % (H.last(nh[0].get("callee") or "?") if nh else None, H.render(nh[0]["args"]) if nh else "", hl), F.loc(rf))
     nw = F.fn("builtins::pcap::Pcap::new_with_header")
     if R.anchor("Pcap::new_with_header", nw):
-        txt = H.render(H.body_of(nw))
-        ok = "let bytes = &global_header.into()" in txt and txt.count("write_all(&bytes)") == 2 and "header: RefCell::new(global_header)" in txt
+        nwb = H.body_inl(F, nw, keep=("write_all", "into", "new"))
+        txt = H.render(nwb)
+        wr_ = [c for c in H.walk(nwb) if c.get("k") == "mcall" and c["m"] == "write_all" and "Write" in (c.get("decl") or c.get("callee") or "")]
+        bytes_lets = [x for x in H.walk(nwb) if x.get("k") == "let" and x.get("pat", {}).get("k") == "bind" and x.get("init") is not None and
+                      H.render(H.strip(x["init"])) == "global_header" and
+                      any(y.get("k") == "mcall" and y["m"] == "into" for y in H.walk(x["init"]))]
+        ids = {x["pat"]["id"] for x in bytes_lets}
+        # both handle kinds write the serialisation of the header that was passed in (through a shared helper or in place)
+        ok = len(bytes_lets) == 1 and len(wr_) == 2 and all(H.local_id(H.strip(c["args"][0])) in ids for c in wr_) and "header: RefCell::new(global_header)" in txt
         R.ob("output-header-provenance", "new_with_header serialises exactly the header it was given", ok, txt[:160], F.loc(nw))
     # ---- (e) builtin variable wiring --------------------------------------------------------------------------------------------------------
     sp = F.fn("vm::interpreter::VM::set_curr_pkt")
